@@ -37,16 +37,18 @@ struct Exact {
     T* p{nullptr};
     std::size_t n{0};
     std::size_t total{0};
-    explicit Exact(std::size_t count) : n{count}
+    // shift: the region starts `shift` elements behind an 8-byte boundary (misaligned sources; its END stays exact)
+    explicit Exact(std::size_t count, std::size_t shift = 0) : n{count}
     {
         auto const bytes = n * sizeof(T);
-        total            = pad + ((bytes + 7U) & ~std::size_t{7}) + pad;
+        auto const lead  = shift * sizeof(T);
+        total            = pad + ((lead + bytes + 7U) & ~std::size_t{7}) + pad;
         block            = static_cast<unsigned char*>(std::malloc(total));
         if (block == nullptr) { std::abort(); }
         std::memset(block, 0xCD, total);
-        p = reinterpret_cast<T*>(block + pad);
+        p = reinterpret_cast<T*>(block + pad + lead);
         ASAN_POISON_MEMORY_REGION(block, total);
-        ASAN_UNPOISON_MEMORY_REGION(block + pad, bytes);
+        ASAN_UNPOISON_MEMORY_REGION(block + pad + lead, bytes);
     }
     ~Exact()
     {
@@ -125,7 +127,8 @@ struct Case {
     std::vector<std::uint32_t> a, b; // first / second string or block (code units; C strings without their terminator)
     std::size_t n{0};                // count
     long ch{0};                      // character argument
-    std::size_t x{0}, y{0};          // writing functions: x = slack behind the destination; memmove: x = source offset, y = destination offset
+    std::size_t x{0}, y{0};          // writing functions: x = slack behind the destination, y = pattern elements in front of it (= misalignment); memmove: x = source offset, y = destination offset
+    std::size_t s{0};                // misalignment of the sources: a starts s % 8 elements, b starts s / 8 elements behind an 8-byte boundary
 };
 auto units(std::vector<std::uint32_t> const& v) -> std::string
 {
@@ -140,7 +143,7 @@ auto units(std::vector<std::uint32_t> const& v) -> std::string
 }
 auto show_case(Case const& k) -> std::string
 {
-    return std::string(k.wide ? "wchar_t " : "char ") + fn_names[k.fn] + " " + units(k.a) + " " + units(k.b) + " " + std::to_string(k.n) + " " + std::to_string(k.ch) + " " + std::to_string(k.x) + " " + std::to_string(k.y);
+    return std::string(k.wide ? "wchar_t " : "char ") + fn_names[k.fn] + " " + units(k.a) + " " + units(k.b) + " " + std::to_string(k.n) + " " + std::to_string(k.ch) + " " + std::to_string(k.x) + " " + std::to_string(k.y) + (k.s ? " " + std::to_string(k.s) : std::string{});
 }
 auto parse_units(std::string const& s, std::vector<std::uint32_t>& out) -> void
 {
@@ -155,6 +158,7 @@ auto parse_case(std::string const& cs, Case& k) -> bool
     std::stringstream ss(cs);
     std::string lib, fn, a, b;
     if (!(ss >> lib >> fn >> a >> b >> k.n >> k.ch >> k.x >> k.y)) { return false; }
+    if (!(ss >> k.s)) { k.s = 0; }
     if (lib != "char" && lib != "wchar_t") { return false; }
     k.wide = lib == "wchar_t";
     k.fn   = -1;
@@ -194,7 +198,7 @@ void pattern(Char* p, std::size_t n)
 template <typename Char>
 struct Bufs {
     Exact<Char> az, bz, a, b;
-    explicit Bufs(Case const& k) : az{k.a.size() + 1}, bz{k.b.size() + 1}, a{k.a.size()}, b{k.b.size()}
+    explicit Bufs(Case const& k) : az{k.a.size() + 1, k.s % 8}, bz{k.b.size() + 1, k.s / 8}, a{k.a.size(), k.s % 8}, b{k.b.size(), k.s / 8}
     {
         for (std::size_t i = 0; i < k.a.size(); ++i) { az.p[i] = a.p[i] = static_cast<Char>(k.a[i]); }
         for (std::size_t i = 0; i < k.b.size(); ++i) { bz.p[i] = b.p[i] = static_cast<Char>(k.b[i]); }
@@ -258,42 +262,46 @@ auto run_call(Bufs<typename L::Char> const& B, Case const& k) -> std::string
     case F_ncpy:
     case F_mcpy: {
         auto const need = k.fn == F_cpy ? la + 1 : n;
-        Exact<Char> de{need + k.x}, dc{need + k.x};
+        Exact<Char> de{k.y + need + k.x}, dc{k.y + need + k.x};
         pattern(de.p, de.n);
         pattern(dc.p, dc.n);
-        void const* re = nullptr;
-        void const* rc = nullptr;
+        auto* const dpe = de.p + k.y;
+        auto* const dpc = dc.p + k.y;
+        void const* re  = nullptr;
+        void const* rc  = nullptr;
         if (k.fn == F_cpy) {
-            re = L::e_cpy(de.p, az);
-            rc = L::c_cpy(dc.p, az);
+            re = L::e_cpy(dpe, az);
+            rc = L::c_cpy(dpc, az);
         } else if (k.fn == F_ncpy) {
-            re = L::e_ncpy(de.p, az, n);
-            rc = L::c_ncpy(dc.p, az, n);
+            re = L::e_ncpy(dpe, az, n);
+            rc = L::c_ncpy(dpc, az, n);
         } else {
-            re = L::e_mcpy(de.p, static_cast<Char const*>(B.a.p), n);
-            rc = L::c_mcpy(dc.p, static_cast<Char const*>(B.a.p), n);
+            re = L::e_mcpy(dpe, static_cast<Char const*>(B.a.p), n);
+            rc = L::c_mcpy(dpc, static_cast<Char const*>(B.a.p), n);
         }
-        if (auto d = ret_dest(re, de.p, rc, dc.p); !d.empty()) { return d; }
+        if (auto d = ret_dest(re, dpe, rc, dpc); !d.empty()) { return d; }
         return dest_diff(de, dc);
     }
     case F_cat:
     case F_ncat: {
         auto const app  = k.fn == F_cat ? lb : std::min(lb, n);
         auto const need = la + app + 1;
-        Exact<Char> de{need + k.x}, dc{need + k.x};
+        Exact<Char> de{k.y + need + k.x}, dc{k.y + need + k.x};
         pattern(de.p, de.n);
         pattern(dc.p, dc.n);
-        for (std::size_t i = 0; i <= la; ++i) { de.p[i] = dc.p[i] = az[i]; } // the destination holds string a
+        auto* const dpe = de.p + k.y;
+        auto* const dpc = dc.p + k.y;
+        for (std::size_t i = 0; i <= la; ++i) { dpe[i] = dpc[i] = az[i]; } // the destination holds string a
         void const* re = nullptr;
         void const* rc = nullptr;
         if (k.fn == F_cat) {
-            re = L::e_cat(de.p, bz);
-            rc = L::c_cat(dc.p, bz);
+            re = L::e_cat(dpe, bz);
+            rc = L::c_cat(dpc, bz);
         } else {
-            re = L::e_ncat(de.p, bz, n);
-            rc = L::c_ncat(dc.p, bz, n);
+            re = L::e_ncat(dpe, bz, n);
+            rc = L::c_ncat(dpc, bz, n);
         }
-        if (auto d = ret_dest(re, de.p, rc, dc.p); !d.empty()) { return d; }
+        if (auto d = ret_dest(re, dpe, rc, dpc); !d.empty()) { return d; }
         return dest_diff(de, dc);
     }
     case F_chr:
@@ -332,12 +340,12 @@ auto run_call(Bufs<typename L::Char> const& B, Case const& k) -> std::string
         return {};
     }
     case F_mset: {
-        Exact<Char> de{n + k.x}, dc{n + k.x};
+        Exact<Char> de{k.y + n + k.x}, dc{k.y + n + k.x};
         pattern(de.p, de.n);
         pattern(dc.p, dc.n);
-        void const* re = L::e_mset(de.p, ch, n);
-        void const* rc = L::c_mset(dc.p, ch, n);
-        if (auto d = ret_dest(re, de.p, rc, dc.p); !d.empty()) { return d; }
+        void const* re = L::e_mset(de.p + k.y, ch, n);
+        void const* rc = L::c_mset(dc.p + k.y, ch, n);
+        if (auto d = ret_dest(re, de.p + k.y, rc, dc.p + k.y); !d.empty()) { return d; }
         return dest_diff(de, dc);
     }
     case F_mcmp: {
@@ -360,21 +368,21 @@ auto run_call(Bufs<typename L::Char> const& B, Case const& k) -> std::string
 // ---------------------------------------------------------------- statistics (batched)
 struct Tally {
     std::uint64_t evals[3]{};
-    std::uint64_t cls[6]{};
+    std::uint64_t cls[10]{};
     std::uint64_t strcalls{0}, memcalls{0};
 } g_t;
 char const* const sub_names[] = {"str", "mem", "memmove"};
-char const* const cls_names[] = {"str: both strings non-empty", "str: different lengths", "str: character >= 0x80 involved", "str: count in {0, len, > len}", "mem: embedded zero element", "mem: overlapping move"};
+char const* const cls_names[] = {"str: both strings non-empty", "str: different lengths", "str: character >= 0x80 involved", "str: count in {0, len, > len}", "mem: embedded zero element", "mem: overlapping move", "str: count > PTRDIFF_MAX (the 'no limit' idiom)", "character argument outside [CHAR_MIN, UCHAR_MAX] (narrow)", "source or destination not 8-byte aligned", "mem: count >= 16"};
 void flush_tally()
 {
     for (int i = 0; i < 3; ++i) {
         if (g_t.evals[i]) { vf::eval(sub_names[i], g_t.evals[i]); }
         g_t.evals[i] = 0;
     }
-    for (int i = 0; i < 6; ++i) {
+    for (int i = 0; i < 10; ++i) {
         auto& c = vf::stats().classes[cls_names[i]];
         c.first += g_t.cls[i];
-        c.second += i < 4 ? g_t.strcalls : g_t.memcalls;
+        c.second += (i < 4 || i == 6) ? g_t.strcalls : ((i == 7 || i == 8) ? g_t.strcalls + g_t.memcalls : g_t.memcalls);
         g_t.cls[i] = 0;
     }
     g_t.strcalls = g_t.memcalls = 0;
@@ -401,7 +409,14 @@ auto one(Bufs<typename L::Char> const& B, Case const& k, bool random) -> bool
         high = high || u >= 0x80;
         zero = zero || u == 0;
     }
-    bool nt = false;
+    bool nt           = false;
+    bool const takes_ch = k.fn == F_chr || k.fn == F_rchr || k.fn == F_mchr || k.fn == F_mset;
+    bool const wild_ch  = !k.wide && takes_ch && (k.ch < -128 || k.ch > 255);
+    bool const writes   = k.fn == F_cpy || k.fn == F_ncpy || k.fn == F_cat || k.fn == F_ncat || k.fn == F_mcpy || k.fn == F_mset;
+    auto const esz      = k.wide ? sizeof(wchar_t) : sizeof(char);
+    bool const misal    = k.fn == F_mmove ? ((k.x * esz) % 8 != 0 || (k.y * esz) % 8 != 0) : (((k.s % 8) * esz) % 8 != 0 || ((k.s / 8) * esz) % 8 != 0 || (writes && (k.y * esz) % 8 != 0));
+    g_t.cls[7] += wild_ch;
+    g_t.cls[8] += misal;
     if (!is_mem(k.fn)) {
         auto const la = k.a.size(), lb = k.b.size();
         bool const nonempty = la > 0 && (!two_strings(k.fn) || lb > 0);
@@ -413,17 +428,20 @@ auto one(Bufs<typename L::Char> const& B, Case const& k, bool random) -> bool
         g_t.cls[1] += difflen;
         g_t.cls[2] += high;
         g_t.cls[3] += cnt;
-        nt = nonempty && (difflen || high || cnt);
+        bool const huge = has_count(k.fn) && k.n > (~std::size_t{0} >> 1);
+        g_t.cls[6] += huge;
+        nt = nonempty && (difflen || high || cnt || wild_ch || misal);
     } else {
         ++g_t.memcalls;
         bool const overlap = k.fn == F_mmove && k.n > 0 && (k.x > k.y ? k.x - k.y : k.y - k.x) < k.n && k.x != k.y;
         g_t.cls[4] += zero;
         g_t.cls[5] += overlap;
-        nt = k.n > 0 && (zero || high || overlap);
+        g_t.cls[9] += k.n >= 16;
+        nt = k.n > 0 && (zero || high || overlap || wild_ch || misal);
     }
     if (nt) {
         if (random) {
-            std::uint64_t h = vf::mix(vf::mix(vf::mix(vf::mix(vf::mix(vf::mix(0xC18ULL, k.wide), k.fn), k.n), k.ch), k.x), k.y);
+            std::uint64_t h = vf::mix(vf::mix(vf::mix(vf::mix(vf::mix(vf::mix(vf::mix(0xC18ULL, k.wide), k.fn), k.n), static_cast<std::uint64_t>(k.ch)), k.x), k.y), k.s);
             h               = vf::fnv(k.a.data(), k.a.size() * 4, h);
             h               = vf::fnv(k.b.data(), k.b.size() * 4, vf::mix(h, 0xFF));
             vf::nontrivial(h);
@@ -457,11 +475,18 @@ auto all_strings(std::vector<std::uint32_t> const& alpha, std::size_t maxlen) ->
 }
 auto has_zero(std::vector<std::uint32_t> const& v) -> bool { return std::find(v.begin(), v.end(), 0U) != v.end(); }
 
+auto huge_counts() -> std::vector<std::size_t> const&
+{
+    static std::vector<std::size_t> const v{~std::size_t{0}, (~std::size_t{0} >> 1) + 1, ~std::size_t{0} >> 1, std::size_t{1} << 32, std::size_t{1} << 31, (std::size_t{1} << 63) + 5};
+    return v;
+}
+
 template <typename L>
 auto ch_set() -> std::vector<long>
 {
     if constexpr (sizeof(typename L::Char) == 1) {
-        return {'a', 'b', 0x80, -128, 0, 'c', 0x161, -1}; // int arguments: converted to char (strchr) / unsigned char (memchr, memset)
+        // int arguments: converted to char (strchr) / unsigned char (memchr, memset) -- also from outside [CHAR_MIN, UCHAR_MAX]
+        return {'a', 'b', 0x80, -128, 0, 'c', 0x161, -1, 256, -256, 0x4100, 'a' + 512, 'b' - 256, 0x80 + 256, 0x7FFFFFFF, -0x7FFFFFFF - 1};
     } else {
         return {L'a', L'b', 0x80, 0, L'c', 0x10FFFF};
     }
@@ -494,10 +519,12 @@ void for_calls(Case& k, bool a_is_cstr, bool b_is_cstr, bool first_b, F f)
     if (a_is_cstr && b_is_cstr) {
         call(F_cmp, 0, 0, 0, 0);
         for (std::size_t n = 0; n <= std::max(la, lb) + 2; ++n) { call(F_ncmp, n, 0, 0, 0); }
+        for (auto n : huge_counts()) { call(F_ncmp, n, 0, 0, 0); } // "no limit": C defines these calls
         for (std::size_t slack : {0U, 3U}) {
             call(F_cat, 0, 0, slack, 0);
             for (std::size_t n = 0; n <= lb + 2; ++n) { call(F_ncat, n, 0, slack, 0); }
         }
+        for (auto n : huge_counts()) { call(F_ncat, n, 0, 0, 0); } // appends at most n characters: valid for any n
         call(F_spn, 0, 0, 0, 0);
         call(F_cspn, 0, 0, 0, 0);
         call(F_pbrk, 0, 0, 0, 0);
@@ -541,19 +568,89 @@ void enumerate(vf::Ctx& c, std::vector<std::uint32_t> const& alpha, std::size_t 
     Bufs<Char> B{k};
     vf::Flight<Case> fl("enumeration", k);
     auto const set_chars = sizeof(Char) == 1 ? std::vector<long>{0, 'a', 0x80, 0x1FF, -1} : std::vector<long>{0, L'a', 0x80, 0x10FFFF, -1};
-    for (std::size_t n = 0; n <= 8; ++n) {
+    // memset: every length 0..40 at every misalignment of the destination (y pattern elements in front of it)
+    for (std::size_t n = 0; n <= 40; ++n) {
         if (!c.mine(work++)) { continue; }
         for (auto ch : set_chars) {
-            for (std::size_t slack : {0U, 3U}) {
-                k.fn = F_mset;
+            for (std::size_t y = 0; y <= 8; ++y) {
+                for (std::size_t slack : {0U, 3U}) {
+                    k.fn = F_mset;
+                    k.n  = n;
+                    k.ch = ch;
+                    k.x  = slack;
+                    k.y  = y;
+                    if (!one<L>(B, k, false) && !c.memory_only) { return; }
+                }
+            }
+        }
+    }
+    k.y = 0;
+    // alignment/length sweep: strings and blocks of every length 0..40 (thorough 70) at every misalignment of the source
+    // (s) and of the destination (y): where word-at-a-time fast paths have their head/tail cases
+    {
+        std::size_t const maxlen = c.thorough() ? 70 : 40;
+        for (std::size_t len = 0; len <= maxlen; ++len) {
+            for (std::size_t sa = 0; sa < 8; ++sa) {
+                if (!c.mine(work++)) { continue; }
+                Case q;
+                q.wide = k.wide;
+                for (std::size_t i = 0; i < len; ++i) { q.a.push_back(static_cast<std::uint32_t>(i % 3 == 2 ? 0x80 + i : 'a' + i % 23)); }
+                q.b = q.a;
+                if (len > 0) { q.b[len - 1] = 'A'; }
+                q.s = sa + 8 * ((sa * 3 + len) % 8);
+                Bufs<Char> Q{q};
+                vf::Flight<Case> fq("enumeration", q);
+                bool ok   = true;
+                auto call = [&](int fn, std::size_t n, long ch, std::size_t x, std::size_t y) {
+                    q.fn = fn;
+                    q.n  = n;
+                    q.ch = ch;
+                    q.x  = x;
+                    q.y  = y;
+                    if (ok) { ok = one<L>(Q, q, false); }
+                };
+                long const lastc = len ? static_cast<long>(static_cast<Char>(q.a[len - 1])) : 0;
+                call(F_len, 0, 0, 0, 0);
+                call(F_cmp, 0, 0, 0, 0);
+                call(F_ncmp, len, 0, 0, 0);
+                call(F_ncmp, len ? len - 1 : 0, 0, 0, 0);
+                call(F_mcmp, len, 0, 0, 0);
+                call(F_chr, 0, lastc, 0, 0);
+                call(F_rchr, 0, 'a', 0, 0);
+                call(F_chr, 0, 0, 0, 0);
+                call(F_mchr, len, lastc, 0, 0);
+                call(F_mchr, len, 'Z', 0, 0);
+                call(F_str, 0, 0, 0, 0);
+                call(F_cspn, 0, 0, 0, 0);
+                for (std::size_t y = 0; y < 8; ++y) {
+                    call(F_cpy, 0, 0, y % 2 ? 3 : 0, y);
+                    call(F_ncpy, len + 2, 0, 0, y);
+                    call(F_ncpy, len, 0, 3, y);
+                    call(F_mcpy, len, 0, y % 2 ? 0 : 3, y);
+                }
+                call(F_cat, 0, 0, 0, sa);
+                call(F_ncat, len / 2, 0, 3, (sa + 5) % 8);
+                if (!ok && !c.memory_only) { return; }
+            }
+            flush_tally();
+        }
+    }
+    // memmove with counts at and beyond 16 (block-wise fast paths), offsets 0..9
+    for (std::size_t n : {15U, 16U, 17U, 23U, 24U, 25U, 31U, 32U, 33U, 40U}) {
+        for (std::size_t x = 0; x <= 9; ++x) {
+            if (!c.mine(work++)) { continue; }
+            for (std::size_t y = 0; y <= 9; ++y) {
+                k.fn = F_mmove;
                 k.n  = n;
-                k.ch = ch;
-                k.x  = slack;
-                k.y  = 0;
+                k.ch = 0;
+                k.x  = x;
+                k.y  = y;
+                k.a.clear();
                 if (!one<L>(B, k, false) && !c.memory_only) { return; }
             }
         }
     }
+    k.y = 0;
     // memmove: every (source offset, destination offset, count) with offsets and count <= 8 (thorough 12): every overlap in both directions
     std::size_t const lim = c.thorough() ? 12 : 8;
     for (std::size_t n = 0; n <= lim; ++n) {
@@ -621,6 +718,7 @@ void random_strings(vf::Ctx& c, std::size_t pairs)
             break;
         default: k.b = gen(12); break;
         }
+        k.s = r.below(3) == 0 ? 0 : r.below(64);
         Bufs<Char> B{k};
         vf::Flight<Case> fl("random", k);
         bool const az = !has_zero(k.a), bz = !has_zero(k.b);
@@ -634,13 +732,19 @@ void random_strings(vf::Ctx& c, std::size_t pairs)
             k.y  = y;
             if (ok) { ok = one<L>(B, k, true); }
         };
-        auto rch   = [&]() -> long { return r.below(4) == 0 ? static_cast<long>(r.below(maxunit + 1)) : static_cast<long>(al[r.below(al.size())]); };
+        auto rch = [&]() -> long {
+            auto v = r.below(4) == 0 ? static_cast<long>(r.below(maxunit + 1)) : static_cast<long>(al[r.below(al.size())]);
+            if (sizeof(Char) == 1 && r.below(4) == 0) { v += 256 * (static_cast<long>(r.below(9)) - 4) * (r.below(3) == 0 ? 4099 : 1); } // same char, other int
+            return v;
+        };
         auto slack = [&]() -> std::size_t { return r.below(2) * 3; };
+        auto mis   = [&]() -> std::size_t { return r.below(3) == 0 ? 0 : r.below(8); };
+        auto cnt   = [&](std::size_t upto) -> std::size_t { return r.below(8) == 0 ? huge_counts()[r.below(huge_counts().size())] : r.below(upto); };
         if (az) {
             call(F_len, 0, 0, 0, 0);
-            call(F_cpy, 0, 0, slack(), 0);
-            call(F_ncpy, r.below(la + 4), 0, slack(), 0);
-            call(F_ncpy, la, 0, slack(), 0);
+            call(F_cpy, 0, 0, slack(), mis());
+            call(F_ncpy, r.below(la + 4), 0, slack(), mis());
+            call(F_ncpy, la, 0, slack(), mis());
             call(F_chr, 0, rch(), 0, 0);
             call(F_rchr, 0, rch(), 0, 0);
             call(F_chr, 0, 0, 0, 0);
@@ -648,9 +752,9 @@ void random_strings(vf::Ctx& c, std::size_t pairs)
         }
         if (az && bz) {
             call(F_cmp, 0, 0, 0, 0);
-            call(F_ncmp, r.below(std::max(la, lb) + 3), 0, 0, 0);
-            call(F_cat, 0, 0, slack(), 0);
-            call(F_ncat, r.below(lb + 3), 0, slack(), 0);
+            call(F_ncmp, cnt(std::max(la, lb) + 3), 0, 0, 0);
+            call(F_cat, 0, 0, slack(), mis());
+            call(F_ncat, cnt(lb + 3), 0, slack(), mis());
             call(F_spn, 0, 0, 0, 0);
             call(F_cspn, 0, 0, 0, 0);
             call(F_pbrk, 0, 0, 0, 0);
@@ -658,8 +762,8 @@ void random_strings(vf::Ctx& c, std::size_t pairs)
         }
         call(F_mcmp, r.below(2) ? std::min(la, lb) : r.below(std::min(la, lb) + 1), 0, 0, 0);
         call(F_mchr, r.below(2) ? la : r.below(la + 1), rch(), 0, 0);
-        call(F_mcpy, r.below(2) ? la : r.below(la + 1), 0, slack(), 0);
-        call(F_mset, r.below(41), rch(), slack(), 0);
+        call(F_mcpy, r.below(2) ? la : r.below(la + 1), 0, slack(), mis());
+        call(F_mset, r.below(r.below(4) == 0 ? 200 : 41), rch(), slack(), mis());
         {
             auto const n = r.below(33);
             call(F_mmove, n, 0, r.below(n + 4), r.below(n + 4));
